@@ -195,6 +195,20 @@ pub fn run(ctx: &mut Ctx) {
                                     }
                                 }
                             }
+                            // both runs logged side by side: does the difference grow smoothly out of
+                            // rounding noise (amplification by the iteration, see solve::smooth_divergence)?
+                            {
+                                let mk2 = || if method == SolveMethod::Full { Sampling::Production } else { Sampling::Seeded(seed) };
+                                let flags = solve::ALL_LOGS & !cfr::verif::LOG_VISIT;
+                                let la = solve::run(&prep, &cfg, Some(Config { flags, sampling: mk2(), jitter_seed: 0 }));
+                                let lb = solve::run(&prep, &log_cfg, Some(Config { flags, sampling: mk2(), jitter_seed: 0 }));
+                                if let (Outcome::Ok(la), Outcome::Ok(lb)) = (la, lb) {
+                                    if solve::smooth_divergence(&la, &lb, prep.flat.max_abs_payoff(), 100.0).is_some() {
+                                        ctx.inconclusive("outputs-differ-but-the-difference-grows-smoothly-from-rounding-noise(<100x-per-snapshot)");
+                                        continue;
+                                    }
+                                }
+                            }
                             let probe_cfg = Cfg { method, iters: tstar as u64, max_reg: 0.0, threads: 1, params };
                             let mk = || if method == SolveMethod::Full { Sampling::Production } else { Sampling::Seeded(seed) };
                             if let Outcome::Ok(base1) = solve::run(&prep, &probe_cfg, Some(Config { flags: 0, sampling: mk(), jitter_seed: 0 })) {
